@@ -150,6 +150,34 @@ def _flat(t: ast.AST):
         yield t
 
 
+def _setattr_names(call: ast.Call, fn: ast.AST | None) -> list[str] | None:
+    """The attribute names a `setattr(obj, name, value)` call can store to, when they are known: `name` is a string
+    literal, or a variable bound ONLY as the target of a `for` loop (in the same function) over a literal tuple/list/set
+    of strings or a module constant bound to one, with the call inside that loop."""
+    if len(call.args) != 3 or call.keywords:
+        return None
+    n = call.args[1]
+    if isinstance(n, ast.Constant) and isinstance(n.value, str):
+        return [n.value]
+    if not isinstance(n, ast.Name) or fn is None:
+        return None
+    binders = [x for x in ast.walk(fn) for t in _targets(x) if isinstance(t, ast.Name) and t.id == n.id]
+    params = {a.arg for a in fn.args.posonlyargs + fn.args.args + fn.args.kwonlyargs} if isinstance(fn, (ast.FunctionDef, ast.AsyncFunctionDef)) else set()
+    if len(binders) != 1 or not isinstance(binders[0], ast.For) or not isinstance(binders[0].target, ast.Name) or n.id in params:
+        return None
+    loop = binders[0]
+    if not any(x is call for x in ast.walk(loop)) or any(x is call for b in loop.orelse for x in ast.walk(b)):
+        return None
+    it = loop.iter
+    if isinstance(it, ast.Name) and it.id in _CONSTS:
+        it = _CONSTS[it.id]
+    if isinstance(it, ast.Call) and isinstance(it.func, ast.Name) and it.func.id in ('frozenset', 'set', 'tuple') and len(it.args) == 1 and not it.keywords:
+        it = it.args[0]
+    if isinstance(it, (ast.Tuple, ast.List, ast.Set)) and all(isinstance(e, ast.Constant) and isinstance(e.value, str) for e in it.elts):
+        return [e.value for e in it.elts]
+    return None
+
+
 # ---------------------------------------------------------------------------------------------- angle stores
 def angle_sites() -> tuple[list[tuple[str, str, int]], dict]:
     sites: list[tuple[str, str, int]] = []
@@ -189,9 +217,23 @@ def angle_sites() -> tuple[list[tuple[str, str, int]], dict]:
                 f = node.func
                 nm = f.id if isinstance(f, ast.Name) else f.attr if isinstance(f, ast.Attribute) else None
                 if nm in ('setattr', '__setattr__', 'delattr', '__delattr__'):
-                    # only the matrix cell setter is known: setattr(self, _IND_TO_SLOT[item], ...)
+                    # the matrix cell setter: setattr(self, _IND_TO_SLOT[item], ...)
                     ok = (nm == 'setattr' and len(node.args) == 3 and isinstance(node.args[1], ast.Subscript)
                           and isinstance(node.args[1].value, ast.Name) and node.args[1].value.id == '_IND_TO_SLOT')
+                    # setattr(obj, name, value) with `name` a literal string or the variable of an enclosing
+                    # `for name in <literal collection of strings>`: the loop form of the stores `obj.<name> = value`
+                    names = _setattr_names(node, fnode) if isinstance(f, ast.Name) and nm == 'setattr' else None
+                    if names is not None:
+                        ok = True
+                        for a in names:
+                            if a in FIELDS:
+                                v = node.args[2]
+                                if isinstance(v, ast.Call) and isinstance(v.func, ast.Name) and v.func.id == 'getattr' and len(v.args) == 2 \
+                                        and not v.keywords and ast.dump(v.args[1]) == ast.dump(node.args[1]) and isinstance(v.args[0], ast.Name):
+                                    kind = 'CopyFromAngle'         # setattr(a, n, getattr(b, n)): the same slot of another object
+                                else:
+                                    kind = classify_rhs(v, envs[id(fnode)])
+                                sites.append((f'{rel}:{cls}.{fn}:{a}', kind, node.lineno))
                     if not ok:
                         sites.append((f'{rel}:{cls}.{fn}:{nm}', 'Other', node.lineno))
             if rel == 'math.py' and isinstance(node, ast.Attribute) and node.attr in ('__dict__', '__setstate__'):
@@ -538,40 +580,162 @@ def _format_cfg(tree: ast.Module) -> dict:
                          + '; '.join(sorted(f'{sorted(c)} -> {e}' for c, e in paths))[:600])
 
 
+class _StrUnk(Exception):
+    """the text a string method builds is not understood"""
+
+
+STR_METHODS = (('VecBase', '__str__'), ('VecBase', 'join'), ('AngleBase', '__str__'), ('AngleBase', 'join'),
+               ('Vec', '__repr__'), ('FrozenVec', '__repr__'), ('Angle', '__repr__'), ('FrozenAngle', '__repr__'))
+
+
 def str_templates(tree: ast.Module) -> dict:
-    """__str__/join/__repr__ of the vector and angle classes: every interpolation must be format_float(self._f)
-    with default places (or the delimiter parameter); literal pieces are recorded."""
-    out = {}
-    want = {('VecBase', '__str__'), ('VecBase', 'join'), ('AngleBase', '__str__'), ('AngleBase', 'join'),
-            ('Vec', '__repr__'), ('FrozenVec', '__repr__'), ('Angle', '__repr__'), ('FrozenAngle', '__repr__')}
-    for c in tree.body:
-        if not isinstance(c, ast.ClassDef):
-            continue
-        for f in c.body:
-            if isinstance(f, ast.FunctionDef) and (c.name, f.name) in want:
-                ret = [s for s in f.body if isinstance(s, ast.Return)]
-                if len(ret) != 1 or not isinstance(ret[0].value, ast.JoinedStr):
-                    raise TranslateError(f'{c.name}.{f.name}: not a single f-string return')
-                pieces = []
-                for v in ret[0].value.values:
-                    if isinstance(v, ast.Constant):
-                        pieces.append(['lit', v.value])
-                    elif isinstance(v, ast.FormattedValue) and v.format_spec is None and v.conversion == -1:
-                        src = ast.unparse(v.value)
-                        m = re.fullmatch(r'format_float\(self\.(_[a-z]+)\)', src)
-                        if m:
-                            pieces.append(['num', m.group(1)])
-                        elif src == 'delim':
-                            pieces.append(['delim', ''])
-                        else:
-                            raise TranslateError(f'{c.name}.{f.name}: interpolation `{src}` is not format_float(self._f)')
-                    else:
-                        raise TranslateError(f'{c.name}.{f.name}: unrecognised f-string piece')
-                out[f'{c.name}.{f.name}'] = pieces
-    missing = want - {tuple(k.split('.')) for k in out}
-    if missing:
-        raise TranslateError(f'string methods not found: {sorted(missing)}')
-    return out
+    """__str__ / join / __repr__ of the vector and angle classes, read semantically: the returned text is evaluated to a
+    list of pieces  ['lit', text] | ['num', slot] (format_float with default places of that slot of self) |
+    ['delim', ''] (the delimiter parameter)  - whatever the spelling: f-string, concatenation, `sep.join([...])`,
+    `sep.join(map(format_float, (...)))`, a comprehension over a literal tuple, locals, properties that return the slot,
+    `self.join(' ')` / `str(self)` inlined.  A method that is not understood yields [['unknown', reason]] (the obligation
+    str_and_join_use_format_float then fails; nothing else is affected)."""
+    classes = {c.name: c for c in tree.body if isinstance(c, ast.ClassDef)}
+
+    def mro(cls: str) -> list[str]:
+        return [cls] + ([CONCRETE[cls]] if cls in CONCRETE else [])
+
+    def find(cls: str, name: str, want_property: bool) -> ast.FunctionDef | None:
+        for cn in mro(cls):
+            c = classes.get(cn)
+            hit = None
+            for f in (c.body if c else []):
+                if isinstance(f, ast.FunctionDef) and f.name == name and not _is_stub(f):
+                    decs = [d.id if isinstance(d, ast.Name) else d.attr if isinstance(d, ast.Attribute) else '' for d in f.decorator_list]
+                    if want_property == ('property' in decs) and 'setter' not in decs:
+                        hit = f
+            if hit is not None:
+                return hit
+        return None
+
+    def slot_of(e: ast.AST, cls: str, me: str) -> str | None:
+        """self._x, or self.x when x is a property whose getter is `return self._x`"""
+        if not (isinstance(e, ast.Attribute) and isinstance(e.value, ast.Name) and e.value.id == me):
+            return None
+        fam = FAMILY_SLOTS[CONCRETE.get(cls, cls)] if CONCRETE.get(cls, cls) in FAMILY_SLOTS else ()
+        if e.attr in fam:
+            return e.attr
+        g = find(cls, e.attr, True)
+        if g is not None:
+            body = _nodoc(g.body)
+            gm = g.args.args[0].arg if g.args.args else None
+            if len(body) == 1 and isinstance(body[0], ast.Return) and isinstance(body[0].value, ast.Attribute) \
+                    and isinstance(body[0].value.value, ast.Name) and body[0].value.value.id == gm and body[0].value.attr in fam:
+                return body[0].value.attr
+        return None
+
+    def elements(e: ast.AST, env: dict, cls: str, me: str, depth: int) -> list[list]:
+        """the strings of an iterable handed to str.join"""
+        if isinstance(e, (ast.List, ast.Tuple)):
+            return [ev(x, env, cls, me, depth) for x in e.elts]
+        if isinstance(e, ast.Call) and isinstance(e.func, ast.Name) and e.func.id == 'map' and len(e.args) == 2 and not e.keywords \
+                and isinstance(e.args[1], (ast.Tuple, ast.List)):
+            return [ev(ast.Call(func=e.args[0], args=[x], keywords=[]), env, cls, me, depth) for x in e.args[1].elts]
+        if isinstance(e, (ast.ListComp, ast.GeneratorExp)) and len(e.generators) == 1:
+            g = e.generators[0]
+            if isinstance(g.target, ast.Name) and not g.ifs and not g.is_async and isinstance(g.iter, (ast.Tuple, ast.List)) and g.target.id not in env:
+                return [ev(_subst(e.elt, {g.target.id: x}), env, cls, me, depth) for x in g.iter.elts]
+        raise _StrUnk(f'iterable handed to join() not understood (line {e.lineno})')
+
+    def run(cls: str, name: str, args: list[list] | None, depth: int) -> list:
+        if depth > 4:
+            raise _StrUnk('call depth')
+        f = find(cls, name, False)
+        if f is None:
+            raise _StrUnk(f'{cls}.{name} not found')
+        a = f.args
+        if a.vararg or a.kwarg or a.kwonlyargs or a.posonlyargs or not a.args:
+            raise _StrUnk(f'{cls}.{name}: signature')
+        me, params = a.args[0].arg, [x.arg for x in a.args[1:]]
+        env: dict[str, list] = {}
+        defaults = dict(zip(params[len(params) - len(a.defaults):], a.defaults))
+        for i, pn in enumerate(params):
+            if args is None:
+                env[pn] = [['delim', '']] if (name == 'join' and i == 0) else None
+            elif i < len(args):
+                env[pn] = args[i]
+            elif pn in defaults and isinstance(defaults[pn], ast.Constant) and isinstance(defaults[pn].value, str):
+                env[pn] = [['lit', defaults[pn].value]]
+            else:
+                raise _StrUnk(f'{cls}.{name}: argument {pn}')
+        body = _nodoc(f.body)
+        for st in body[:-1]:
+            if isinstance(st, ast.Assign) and len(st.targets) == 1 and isinstance(st.targets[0], ast.Name):
+                env[st.targets[0].id] = ev(st.value, env, cls, me, depth)
+            elif isinstance(st, ast.Assign) and len(st.targets) == 1 and isinstance(st.targets[0], (ast.Tuple, ast.List)) \
+                    and isinstance(st.value, (ast.Tuple, ast.List)) and len(st.value.elts) == len(st.targets[0].elts) \
+                    and all(isinstance(t, ast.Name) for t in st.targets[0].elts):
+                vals = [ev(x, env, cls, me, depth) for x in st.value.elts]
+                for t, v in zip(st.targets[0].elts, vals):
+                    env[t.id] = v
+            else:
+                raise _StrUnk(f'{cls}.{name}: statement not understood (line {st.lineno})')
+        if not body or not isinstance(body[-1], ast.Return) or body[-1].value is None:
+            raise _StrUnk(f'{cls}.{name}: does not end in `return <text>`')
+        return ev(body[-1].value, env, cls, me, depth)
+
+    def ev(e: ast.AST, env: dict, cls: str, me: str, depth: int) -> list:
+        if isinstance(e, ast.Constant) and isinstance(e.value, str):
+            return [['lit', e.value]] if e.value else []
+        if isinstance(e, ast.Name):
+            if env.get(e.id) is not None:
+                return env[e.id]
+            raise _StrUnk(f'name {e.id} (line {e.lineno})')
+        if isinstance(e, ast.JoinedStr):
+            out: list = []
+            for v in e.values:
+                if isinstance(v, ast.Constant):
+                    out += ev(v, env, cls, me, depth)
+                elif isinstance(v, ast.FormattedValue) and v.format_spec is None and v.conversion in (-1, 115):
+                    out += ev(v.value, env, cls, me, depth)
+                else:
+                    raise _StrUnk(f'f-string piece with a format spec or conversion (line {e.lineno})')
+            return out
+        if isinstance(e, ast.BinOp) and isinstance(e.op, ast.Add):
+            return ev(e.left, env, cls, me, depth) + ev(e.right, env, cls, me, depth)
+        if isinstance(e, ast.Call) and not any(isinstance(x, ast.Starred) for x in e.args):
+            f = e.func
+            if isinstance(f, ast.Name) and f.id == 'format_float' and f.id not in env:
+                if len(e.args) == 1 and not e.keywords:
+                    sl = slot_of(e.args[0], cls, me)
+                    if sl is not None:
+                        return [['num', sl]]
+                raise _StrUnk(f'`{ast.unparse(e)}` is not format_float(<slot of self>) with the default places (line {e.lineno})')
+            if isinstance(f, ast.Name) and f.id == 'str' and len(e.args) == 1 and not e.keywords and isinstance(e.args[0], ast.Name) and e.args[0].id == me:
+                return run(cls, '__str__', [], depth + 1)
+            if isinstance(f, ast.Attribute) and isinstance(f.value, ast.Name) and f.value.id == me and f.attr in ('join', '__str__') and not e.keywords:
+                return run(cls, f.attr, [ev(x, env, cls, me, depth) for x in e.args], depth + 1)
+            if isinstance(f, ast.Attribute) and f.attr == 'join' and len(e.args) == 1 and not e.keywords:
+                sep = ev(f.value, env, cls, me, depth)
+                out = []
+                for i, x in enumerate(elements(e.args[0], env, cls, me, depth)):
+                    out += (sep if i else []) + x
+                return out
+        raise _StrUnk(f'`{ast.unparse(e)[:60]}` not understood (line {getattr(e, "lineno", 0)})')
+
+    def merged(p: list) -> list:
+        out: list = []
+        for k, v in p:
+            if k == 'lit' and out and out[-1][0] == 'lit':
+                out[-1] = ['lit', out[-1][1] + v]
+            else:
+                out.append([k, v])
+        return out
+
+    res = {}
+    for cls, name in STR_METHODS:
+        if cls not in classes:
+            raise TranslateError(f'class {cls} not found in math.py')
+        try:
+            res[f'{cls}.{name}'] = merged(run(cls, name, None, 0))
+        except _StrUnk as ex:
+            res[f'{cls}.{name}'] = [['unknown', str(ex)]]
+    return res
 
 
 # ---------------------------------------------------------------------------------------------- semantic helpers
@@ -1154,6 +1318,7 @@ def result_kinds(tree: ast.Module) -> tuple[list[tuple[str, str, str]], dict]:
                     aliases.setdefault(c.name, {})[n.targets[0].id] = n.value.id
     out: list[tuple[str, str, str]] = []
     info: dict = {'module_makers': module_kinds}
+    sym = _Sym(tree)
     for cls, base in CONCRETE.items():
         table: dict[str, str] = {}
         for owner in (base, cls):                       # subclass definitions override the base ones
@@ -1171,6 +1336,15 @@ def result_kinds(tree: ast.Module) -> tuple[list[tuple[str, str, str]], dict]:
         for m in ('__copy__', '__deepcopy__'):
             if m not in table and '__reduce__' in table:
                 table[m] = table['__reduce__']          # copy.copy / copy.deepcopy fall back to __reduce_ex__
+        # a copy-like method whose return expression says nothing by its form (`return self.copy()`, `return
+        # Py_FrozenVec(self)` in the mutable class, a helper method) is RUN symbolically on a receiver of this concrete
+        # class: the object it returns is the receiver itself or one created during the run
+        for m in COPYLIKE:
+            if table.get(m) == 'RUnknown':
+                r = sym.shape(cls, m)
+                if r is not None and r[0] in ('CSelf', 'CSlots'):
+                    table[m] = 'RSelf' if r[0] == 'CSelf' else 'RFresh'
+                    info.setdefault('kinds_from_symbolic_run', []).append(f'{cls}.{m}')
         for name, k in sorted(table.items()):
             public = not name.startswith('_') or (name.startswith('__') and name.endswith('__'))
             if public:
@@ -1354,6 +1528,18 @@ class _Sym:
                 for t in targets:
                     self.assign(t, v, env, depth)
                 continue
+            if isinstance(st, ast.For) and isinstance(st.target, ast.Name) and not st.orelse:
+                # a loop over a literal collection (or a constant bound to one) is unrolled
+                it = self.ev(st.iter, env, depth)
+                items = it.items if isinstance(it, _T) else [_K(x) for x in it.v] if isinstance(it, _K) and isinstance(it.v, (tuple, list)) else None
+                if items is None:
+                    raise _Unk(f'loop over something that is not a literal collection (line {st.lineno})')
+                for x in items:
+                    env[st.target.id] = x
+                    r = self.block(st.body, env, depth)
+                    if r is not None:
+                        return r
+                continue
             raise _Unk(f'statement {type(st).__name__} (line {st.lineno})')
         return None
 
@@ -1430,8 +1616,14 @@ class _Sym:
             if e.id in _CONSTS:
                 return self.ev(_CONSTS[e.id], {}, depth)
             raise _Unk(f'name {e.id}')
-        if isinstance(e, ast.Tuple):
+        if isinstance(e, (ast.Tuple, ast.List)):
             return _T(self.ev(x, env, depth) for x in e.elts)
+        if isinstance(e, ast.Call) and isinstance(e.func, ast.Name) and e.func.id == 'getattr' and 'getattr' not in env \
+                and len(e.args) == 2 and not e.keywords:
+            k = self.ev(e.args[1], env, depth)
+            if not (isinstance(k, _K) and isinstance(k.v, str) and k.v.isidentifier()):
+                raise _Unk('getattr with a symbolic name')
+            return self.ev(ast.Attribute(value=e.args[0], attr=k.v, ctx=ast.Load()), env, depth)
         if isinstance(e, ast.Attribute):
             if e.attr == '__new__':
                 return _New()
@@ -1619,11 +1811,15 @@ def translate() -> tuple[str, dict]:
     shapes, sinfo = copy_shapes(tree)
     info.update(sinfo)
     # __str__: three numbers separated by single spaces
-    def plain3(p, sep):
-        kinds = [k for k, _ in p]
-        return kinds == ['num', sep[0], 'num', sep[0], 'num'] and all(v == sep[1] for k, v in p if k == sep[0])
-    str_ok = plain3(strs['VecBase.__str__'], ('lit', ' ')) and plain3(strs['AngleBase.__str__'], ('lit', ' ')) \
-        and plain3(strs['VecBase.join'], ('delim', '')) and plain3(strs['AngleBase.join'], ('delim', ''))
+    def plain3(p, sep, fam, pre='', post=''):
+        want = ([['lit', pre]] if pre else []) + [['num', fam[0]], list(sep), ['num', fam[1]], list(sep), ['num', fam[2]]] + ([['lit', post]] if post else [])
+        return [list(x) for x in p] == want
+    V, A = FAMILY_SLOTS['VecBase'], FAMILY_SLOTS['AngleBase']
+    # the three slots of the family, in order, each through format_float with default places; single spaces / the delimiter
+    # between them; repr: ClassName(x, y, z)
+    str_ok = plain3(strs['VecBase.__str__'], ('lit', ' '), V) and plain3(strs['AngleBase.__str__'], ('lit', ' '), A) \
+        and plain3(strs['VecBase.join'], ('delim', ''), V) and plain3(strs['AngleBase.join'], ('delim', ''), A) \
+        and all(plain3(strs[f'{c}.__repr__'], ('lit', ', '), fam, c + '(', ')') for c, fam in (('Vec', V), ('FrozenVec', V), ('Angle', A), ('FrozenAngle', A)))
     b = lambda x: 'true' if x else 'false'
     lines = [
         '(* GENERATED by translate/c05_sites.py from src/srctools/math.py. Do not edit. *)',
